@@ -8,7 +8,7 @@
     .proto are non-negative; [st_ok]: every bit array in the peer state has exactly the words its
     bits need (true of NewPeerState, preserved by every handler: C18_state_invariant). *)
 From Coq Require Import List ZArith NArith Bool.
-From Kardia Require Import C18.Model C18.ProofsBits C18.Proofs Generated.C18Facts.
+From Kardia Require Import C18.Model C18.ProofsBits C18.Proofs C18.ProofsNet Generated.C18Facts.
 Import ListNotations.
 Local Open Scope Z_scope.
 
@@ -97,3 +97,51 @@ Print Assumptions C18_frame_capacity.
 Theorem C18_bc_no_crash : forall m conv_ok, bc_receive m conv_ok = Accepted \/ bc_receive m conv_ok = Rejected.
 Proof. exact bc_no_crash. Qed.
 Print Assumptions C18_bc_no_crash.
+
+(** PEX channel: a requested address list is taken exactly when every address is well-formed — the
+    IP parses and the port is a 16-bit number, 65535 included; nothing else stops the sender *)
+Theorem C18_pex_wellformed_accepted :
+  forall l sol, Forall (fun a => 0 <= snd a) l ->
+    (pex_receive (PAddrs l sol) = ShAcc <-> sol = true /\ Forall addr_wf l).
+Proof. exact pex_addrs_accepted_iff. Qed.
+Print Assumptions C18_pex_wellformed_accepted.
+
+(** every port an address can have survives ToProto / NetAddressFromProto *)
+Theorem C18_pex_addr_roundtrip :
+  forall port, 0 <= port <= max_port -> addr_from_proto (addr_to_proto port) = Some port.
+Proof. exact addr_roundtrip. Qed.
+Print Assumptions C18_pex_addr_roundtrip.
+
+(** HeightVoteSet: whatever rounds peers have opened by their votes (AddVote makes the vote sets
+    of an untracked round before anything is verified), the round changes of the node — SetRound
+    with an argument not more than one below hvs.round — never reach the addRound panic, over
+    whole histories of votes and round changes *)
+Theorem C18_hvs_no_crash :
+  forall ops h, hvs_inv h -> hvs_disciplined h ops -> exists h', hvs_run h ops = Ok h' /\ hvs_inv h'.
+Proof. exact hvs_run_ok. Qed.
+Print Assumptions C18_hvs_no_crash.
+
+(** ... and SetRound leaves every round from hvs.round-1 to the new round tracked, losing none *)
+Theorem C18_hvs_set_round_tracks :
+  forall h round, hvs_inv h -> hvs_pre h (HSet round) ->
+    exists h', hvs_set_round h round = Ok h' /\ hvs_inv h' /\ hv_round h' = round /\
+      hv_catchup h' = hv_catchup h /\
+      (forall q, In q (hv_rounds h) -> In q (hv_rounds h')) /\
+      (forall q, hv_round h - 1 <= q <= round -> In q (hv_rounds h')).
+Proof. exact hvs_set_round_ok. Qed.
+Print Assumptions C18_hvs_set_round_tracks.
+
+(** the node's own round change after any deliveries: legal and panic-free *)
+Theorem C18_node_round_change_no_crash :
+  forall n h hr, hvs_inv (nh_hvs n) -> 2 <= hr < two32 - 1 ->
+    (nh_height n = h -> hv_round (nh_hvs n) - 1 <= hr) ->
+    exists n', node_observe n h hr = Ok n' /\ hvs_inv (nh_hvs n') /\ hv_round (nh_hvs n') = hr.
+Proof. exact node_observe_ok. Qed.
+Print Assumptions C18_node_round_change_no_crash.
+
+(** dropping the membership test of the SetRound loop (seeded breakage a1) panics on a round a
+    peer has opened *)
+Theorem C18_hvs_unchecked_fill_refuted :
+  hvs_fill_unchecked 1 3 {| hv_round := 2; hv_rounds := [3; 2; 0; 1]; hv_catchup := [(7, [3])] |} = RCrash.
+Proof. exact hvs_unchecked_fill_panics. Qed.
+Print Assumptions C18_hvs_unchecked_fill_refuted.
